@@ -105,6 +105,26 @@ func (x *Exec) stdlib(fr *Frame, ins ssa.Instruction, fn *ssa.Function, args []V
 		x.assume(ts.Quant("forall", []*Term{kk}, ts.Implies(ts.Or(x.w.bvult(kk, lo), x.w.bvule(hi, kk)), ts.Eq(ts.Select(nr, kk), ts.Select(oldRow, kk)))))
 		st.heap[cn] = ts.Store(h, arr, nr)
 		return x.w.mkSlice(arr, off, newLen, ts.Ite(fits, oldCap, newCap)), true
+	case "bytes.NewReader", "bytes.NewBuffer", "bytes.NewBufferString", "strings.NewReader", "encoding/gob.NewDecoder", "encoding/gob.NewEncoder":
+		x.note("trusted: %s returns a non-nil value", name)
+		r := x.allocRef(st, "ext_"+fn.Name())
+		return r, true
+	case "(*bytes.Reader).Len", "(*bytes.Buffer).Len", "(*strings.Reader).Len":
+		r := x.w.Fresh("extlen", SBV(64))
+		x.assume(ts.And(x.w.bvsle(ts.BV(0, 64), r), x.w.bvult(r, x.w.existingLenBound())))
+		return r, true
+	case "io.ReadFull":
+		// reads into buf (contents unspecified); err == nil implies n == len(buf)
+		buf := args[1].(*Term)
+		cn, cs := "E_"+sanitize(string(SBV(8))), SArr(SInt, SArr(SBV(64), SBV(8)))
+		h := x.comp(st, cn, cs)
+		st.heap[cn] = ts.Store(h, x.w.sArr(buf), x.w.Fresh("readrow", SArr(SBV(64), SBV(8))))
+		x.note("trusted: io.ReadFull writes only into its buffer (whole backing row treated as overwritten) and returns n == len(buf) when err == nil")
+		n := x.w.Fresh("readn", SBV(64))
+		e := x.w.Fresh("readerr", SIface)
+		x.assume(ts.And(x.w.bvsle(ts.BV(0, 64), n), x.w.bvsle(n, x.w.sLen(buf))))
+		x.assume(ts.Implies(ts.Eq(e, x.w.ifaceNil()), ts.Eq(n, x.w.sLen(buf))))
+		return Tuple{n, e}, true
 	case "fmt.Errorf", "errors.New":
 		x.note("trusted: %s returns a non-nil error", name)
 		r := x.w.Fresh("err_"+fn.Name(), SIface)
